@@ -220,6 +220,39 @@ pub fn layerings(layer_bases: &[usize], lower_paths: &[String], full: bool) -> V
     }
 }
 
+/// Layerings in which some path is a directory in one layer and a file in another, admissible
+/// under `Model::union_of_ext` (and not already type-consistent).
+pub fn mixed_type_layerings(n: usize, lower_paths: &[String]) -> Vec<InitSpec> {
+    let bytes: [&[u8]; 4] = [b"u", b"l", b"m", b"n"];
+    let cands: Vec<Vec<Vec<(String, Node)>>> = (0..n).map(|i| trees_over(lower_paths, bytes[i.min(3)])).collect();
+    let mut out = vec![];
+    let mut idx = vec![0usize; n];
+    loop {
+        let layers: Vec<Vec<(String, Node)>> = (0..n).map(|i| cands[i][idx[i]].clone()).collect();
+        if Model::union_of(&layers).is_none() {
+            if let Some(m) = Model::union_of_ext(&layers) {
+                out.push(InitSpec {
+                    label: format!("mixed types: {}", layers.iter().map(|l| tree_label(l)).collect::<Vec<_>>().join(" over ")),
+                    init: layers.iter().enumerate().map(|(i, l)| (i, l.clone())).collect(),
+                    model: Some(m),
+                });
+            }
+        }
+        let mut k = 0;
+        loop {
+            if k == n {
+                return out;
+            }
+            idx[k] += 1;
+            if idx[k] < cands[k].len() {
+                break;
+            }
+            idx[k] = 0;
+            k += 1;
+        }
+    }
+}
+
 /// Runs several spaces one after the other (each one parallel inside).
 pub fn run_spaces(ctx: &Ctx, spaces: Vec<TreeSpace>, lim: &Limits) -> (Vec<Stats>, Vec<Violation>) {
     let mut all = vec![];
